@@ -67,6 +67,23 @@ Theorem ident_no_merge : forall row s1 s2, In row rows -> is_star s1 = false -> 
 Proof. exact (emit_ident_injective istart irest common extra rows c09_ident_classes_ok c09_quote_chars_ok). Qed.
 Print Assumptions ident_no_merge.
 
+(* FULL STATEMENT for multi-part names (translate_ident: schema.table, table.column, ...; every part goes through
+   translate_ident_part, the parts are joined by dots): for every dialect row, every folding behaviour as above and every
+   non-empty list of parts none of which is the wildcard -- parts may contain dots, quotes, spaces, keywords -- the emitted
+   text lexes as identifier tokens separated by single dots and names exactly that list of parts *)
+Theorem path_roundtrip : forall row k parts,
+  In row rows -> (k = FoldUpper -> snd row = true) -> parts <> [] -> forallb (fun s => negb (is_star s)) parts = true ->
+  path_denotes k (snd (fst row)) (emit_path istart irest common (identd_of extra row) parts) = Some parts.
+Proof. exact (path_roundtrip_rows istart irest common extra rows c09_ident_classes_ok c09_quote_chars_ok). Qed.
+Print Assumptions path_roundtrip.
+
+(* two different paths are never emitted as the same text (a.b as ONE name and a, b as two parts differ) *)
+Theorem path_no_merge : forall row p1 p2, In row rows -> p1 <> [] -> p2 <> [] ->
+  forallb (fun s => negb (is_star s)) p1 = true -> forallb (fun s => negb (is_star s)) p2 = true ->
+  emit_path istart irest common (identd_of extra row) p1 = emit_path istart irest common (identd_of extra row) p2 -> p1 = p2.
+Proof. exact (emit_path_injective istart irest common extra rows c09_ident_classes_ok c09_quote_chars_ok). Qed.
+Print Assumptions path_no_merge.
+
 Theorem bare_implies_casefold_fixpoint : forall s, valid_ident istart irest s = true -> lower_ascii s = s.
 Proof. exact (fun s => bare_casefold_fixpoint istart irest s c09_ident_classes_ok). Qed.
 Print Assumptions bare_implies_casefold_fixpoint.
@@ -309,6 +326,11 @@ Proof. vm_compute. reflexivity. Qed.
 Example c09_ex_split_reserved : split_names lower_ascii cprefix (code_col_reserved true lower_ascii [upper_ascii cprefix ++ [48]])
                                   [(DSingle (Some (upper_ascii cprefix ++ [48])), None); (DCompute, None)] [] 0
                                 = Some ([Some (upper_ascii cprefix ++ [48]); Some (gen_name cprefix 1)], 2).
+Proof. vm_compute. reflexivity. Qed.
+Example c09_ex_path : emit_path istart irest common {| iq := 34; always_quoted := false; extra_kw := [] |} [[97;46;98]; [99]; [115;101;108;101;99;116]]
+                      = [34;97;46;98;34; 46; 99; 46; 34;115;101;108;101;99;116;34].              (* ''a.b''.c.''select'' *)
+Proof. vm_compute. reflexivity. Qed.
+Example c09_ex_path_read : path_denotes FoldLower 34 [34;97;46;98;34; 46; 99; 46; 34;115;101;108;101;99;116;34] = Some [[97;46;98]; [99]; [115;101;108;101;99;116]].
 Proof. vm_compute. reflexivity. Qed.
 Example c09_ex_rows : find_dialect [115;113;108;105;116;101] rows = Some ([115;113;108;105;116;101], 34, false).
 Proof. vm_compute. reflexivity. Qed.
